@@ -183,6 +183,24 @@ def threaded_source_cases(ctx):
                               fail=[(j, err) for j in s], src_ignore=False, tag=f'tsource:{kind}:t{t}')
 
 
+def lazy_source_cases(ctx):
+  """A skipping (or not skipping) SequenceDataSource over a sequence whose slices are lazy (nested MergedSequences,
+  `src.nest` = the two read-ahead sizes): the failing read surfaces in the middle of a read-ahead batch (first / middle /
+  last of its window, two in one window, windows apart).  Input class of the repaired finding F10d and of seeded change
+  C12-m7 (good elements of the window delivered twice)."""
+  i = 0
+  for n, fails in [(12, [6]), (12, [4]), (12, [7]), (12, [5, 6]), (12, [1, 9]), (9, [8]), (9, [0]), (7, [2, 3, 6])]:
+    for nest in [(4, 8), (3, 5), (2, 3), (8, 4)]:
+      for src_ignore, ignore in [(True, False), (True, True), (False, True), (False, False)]:
+        i += 1
+        err = 'ValueError' if i % 4 else 'KeyError'
+        ops = [{'op': 'select', 'in': {'many': [N('a'), N('b')]}}] if i % 2 else copy.deepcopy(AFTER['apply'])
+        c = c08.mk_case(ops, recs(n), ignore=ignore, kind='seq', fail=[(j, err) for j in fails], src_ignore=src_ignore,
+                        tag='lazy-source')
+        c['src']['nest'] = list(nest)
+        yield c
+
+
 def batched_cases(ctx):
   nmax = 4 if ctx.quick else 6
   for n in range(1, nmax + 2):
@@ -378,6 +396,7 @@ def gen_cases(ctx):
   yield from counted(source_cases(ctx), 'source')
   yield from counted(batched_cases(ctx), 'batched')
   yield from counted(threaded_source_cases(ctx), 'tsource')
+  yield from counted(lazy_source_cases(ctx), 'lazy-source')
   yield from counted(passed_on_cases(ctx), 'passed-on')
   yield from counted(aligned_assign_cases(ctx), 'aligned-assign')
   yield from counted(value_shape_cases(ctx), 'value-shape')
